@@ -623,6 +623,7 @@ func bucketAccessAfterSuccess(c *core.Ctx) {
 }
 
 func c17r4(c *core.Ctx) {
+	emptyValueKeepsItsItem(c)
 	tlv8MergeOnlyPreviousItem(c)
 	p := c.P
 	rd := p.Func("tlv8", "read")
